@@ -1,0 +1,5 @@
+//go:build !verif
+
+package machine
+
+func verifPoint(m *Machine, id string) {}
